@@ -28,8 +28,12 @@ func FormatPageNo(style string, n, total int) string {
 	return strings.Replace(s, "#", strconv.Itoa(total), 1)
 }
 
-// Doc is a multi-page document for the header/footer properties. All pages
-// share one size; no page is flipped or scaled.
+// Doc is a multi-page document for the header/footer properties. No page is
+// flipped or scaled. Pages share one size unless the document has the
+// mixed-size feature (portrait and landscape pages, A4 inserts): then all
+// marginal text is left-aligned and stands at the same distance from each
+// page's own top / bottom edge, which is what "the same marginal position"
+// means when the sheets differ.
 type Doc struct {
 	Pages []Page `json:"pages"`
 
@@ -51,6 +55,8 @@ const (
 	FeatMargNum     = "margin-num"    // constant numeric fragment in the band that also holds the page number
 	FeatMargUnique  = "margin-uniq"   // non-repeating text inside a margin band
 	FeatHdrDigits   = "header-digits" // running header containing a constant number
+	FeatMixedSize   = "mixed-size"    // pages of different sizes
+	FeatMargShadow  = "margin-shadow" // the one-page marginal text is painted twice, 1-2 pt apart (drop shadow / fake bold)
 )
 
 // DocOpts tunes GenDoc.
@@ -144,6 +150,15 @@ func GenDoc(t *rapid.T, o DocOpts) Doc {
 		d.PageNoAt = rapid.SampledFrom([]string{"bottom", "bottom", "top"}).Draw(t, "pageNoAt")
 	}
 	pnAlign := rapid.SampledFrom([]string{"center", "right", "left"}).Draw(t, "pageNoAlign")
+	allDims := [][2]float64{{612, 792}, {595, 842}, {792, 612}, {842, 595}}
+	mixed := n >= 2 && want(FeatMixedSize, pct("mixedSize", 15))
+	if mixed {
+		feat[FeatMixedSize] = true
+		hdrAlign, ftrAlign, pnAlign = "left", "left", "left"
+		if d.PageNo == "alternate" {
+			d.PageNo = "fixed"
+		}
+	}
 	pnStart := rapid.SampledFrom([]int{1, 1, 2, 7, 95, 98, 117}).Draw(t, "pageNoStart")
 	jitter := rapid.SampledFrom([]float64{0, 0, 0.5, 1}).Draw(t, "jitter") // producers round positions differently from page to page
 	margNum := d.PageNo != "none" && want(FeatMargNum, pct("marginNumeric", 15))
@@ -169,6 +184,10 @@ func GenDoc(t *rapid.T, o DocOpts) Doc {
 
 	tokenBase := 0
 	for i := 0; i < n; i++ {
+		if mixed {
+			dims = rapid.SampledFrom(allDims).Draw(t, "pageDims")
+			W, H = dims[0], dims[1]
+		}
 		// the body: an ordinary light page whose text keeps BodyClear from both edges. A repeated line or an
 		// edge numeric line takes one line of room at the respective end.
 		rowH := r2(size * 1.5)
@@ -315,7 +334,15 @@ func GenDoc(t *rapid.T, o DocOpts) Doc {
 			if rapid.Bool().Draw(t, "marginUniqueBottom") {
 				y = botRow(2)
 			}
-			madd([]string{mtok(rapid.IntRange(3, 9).Draw(t, "marginUniqueLen"), Lower)}, "frag", rapid.SampledFrom([]string{"left", "center", "right"}).Draw(t, "marginUniqueAlign"), y, RoleMargin, 0)
+			uw := []string{mtok(rapid.IntRange(3, 9).Draw(t, "marginUniqueLen"), Lower)}
+			ual := rapid.SampledFrom([]string{"left", "center", "right"}).Draw(t, "marginUniqueAlign")
+			madd(uw, "frag", ual, y, RoleMargin, 0)
+			if want(FeatMargShadow, pct("marginShadow", 30)) {
+				// the same words painted a second time, slightly offset: still text that occurs on this page only
+				feat[FeatMargShadow] = true
+				ln--
+				madd(uw, "frag", ual, y-rapid.SampledFrom([]float64{0, 1, 1.5}).Draw(t, "shadowDy"), RoleMargin, rapid.SampledFrom([]float64{1, 1.5, 2}).Draw(t, "shadowDx"))
+			}
 		}
 		// where the marginal text sits in the stream: before the body, after it, or in visual order (header, body, footer)
 		switch rapid.SampledFrom([]string{"first", "last", "visual"}).Draw(t, "marginalOrder") {
